@@ -149,6 +149,19 @@ def read_round(run, sessions, conn, path, what, hist, dist, compare_model=True):
         t = tabs[0]
         root = sqlfmt.root_of(conn, t)
         exp = ["row %d %s" % (r[0], sqlfmt.canon_rec(r[1:])) for r in conn.execute("SELECT rowid, * FROM %s ORDER BY rowid" % t)] + ["end ok"]
+        def stored_prefix(o):
+            """the low level scan gives the STORED record: rows written before an ALTER TABLE ADD COLUMN are shorter than
+            SQLite's SELECT * (which fills in the DEFAULT) - each must be a prefix of it, with the original columns present"""
+            if len(o) != len(exp) or o[-1] != exp[-1]:
+                return False
+            for a, b in zip(o[:-1], exp[:-1]):
+                fa, fb = a.split(" "), b.split(" ")
+                if len(fa) != 3 or fa[:2] != fb[:2]:
+                    return False
+                ca, cb = fa[2].split(","), fb[2].split(",")
+                if len(ca) < 2 or ca != cb[:len(ca)]:
+                    return False
+            return True
         for s, who in ((impl, "impl"), (model, "model")):
             if not s:
                 continue
@@ -156,7 +169,7 @@ def read_round(run, sessions, conn, path, what, hist, dist, compare_model=True):
             o = s.cmd("scan %d 0" % root)
             s.cmd("runlock")
             run.count()
-            if o != exp:
+            if o != exp and not stored_prefix(o):
                 if who == "impl":
                     run.violation("after [%s]: low level RLock; Table.Scan(%s); RUnlock differs from SQLite" % (what, t), {"kind": "impl-vs-sqlite", "history": list(hist), "impl": o[:4] + o[-2:], "sqlite": exp[:4]})
                 elif compare_model:
